@@ -1456,11 +1456,29 @@ func (m *Machine) saveMap(mo *MapObj) {
 	}
 }
 
+// cowEnt prepares an in-place change of an entry of a package-level map: the
+// map is snapshotted for the end-of-path restore and the entry is replaced by
+// a private copy (the snapshot keeps the original, unchanged, entry).
+func (m *Machine) cowEnt(mo *MapObj, e *mapEnt) *mapEnt {
+	m.saveMap(mo)
+	ne := *e
+	for i := range mo.ents {
+		if mo.ents[i] == e {
+			mo.ents[i] = &ne
+			break
+		}
+	}
+	if e.conc {
+		mo.idx[e.ks] = &ne
+	}
+	return &ne
+}
+
 func (m *Machine) mapSet(mo *MapObj, key, v Val, what string) {
 	m.noteWrite(mo.O, what)
 	if e := m.mapFind(mo, key); e != nil {
 		if mo.O != nil && mo.O.epoch == 0 && !m.inInit {
-			m.unmodelled("update of an existing entry of a package-level map")
+			e = m.cowEnt(mo, e)
 		}
 		e.V = v
 		return
@@ -1484,7 +1502,7 @@ func (m *Machine) mapDelete(mo *MapObj, key Val, what string) {
 	m.noteWrite(mo.O, what)
 	if e := m.mapFind(mo, key); e != nil {
 		if mo.O != nil && mo.O.epoch == 0 && !m.inInit {
-			m.unmodelled("delete from a package-level map")
+			e = m.cowEnt(mo, e)
 		}
 		e.deleted = true
 		mo.n--
